@@ -103,7 +103,8 @@ theorem ambiguous_two_readings (u : Uni) (ha : u.Ascii) (cfg : TimeCfg) (c : Clo
   omega
 
 
-/-- C07(d) `<date> at <time>`: a resolved absolute date (groups decode to the existing date `y-mo-d`, four-digit year)
+/-- C07(d) `<date> at <time>`, ABSOLUTE dates only (relative and year-less dates: `date_at_time_relative`,
+`date_at_time_yearless` below): a resolved absolute date (groups decode to the existing date `y-mo-d`, four-digit year)
 followed by a decoded clock time yields the datetime composed of both: TIMEX = date TIMEX ++ time TIMEX
 (`YYYY-MM-DDThh[:mm[:ss]]`), value `YYYY-MM-DD hh:mm:ss`, type `datetime`; one value when the hour is unambiguous
 (0, 13–23, or am / pm given), the two readings twelve hours apart otherwise. No "morning / afternoon" word in the
@@ -139,6 +140,43 @@ theorem date_at_time_ambiguous (u : Uni) (ha : u.Ascii) (dcfg : DateCfg) (hmax :
   have : (0 < c.h ∧ c.h ≤ 12) := by omega
   simp [adjHour, this, (toPm_twelve_apart c.h h1 h12).1]
 
+
+/-! ### C07(d) beyond absolute dates (audit item 16)
+
+`date_at_time*` above start from the date GROUPS of an absolute four-digit-year date.  The two theorems below start from the
+date parser's RESULT — any TIMEX, any valid date(s) — and therefore cover the relative forms (one resolved date) and the
+year-less forms (future / past candidates) that `merge_date_and_time` receives. -/
+
+/-- C07(d) for a RELATIVE date ("tomorrow at 3pm", "next Friday at 15:30", "2 days ago at noon": the date parser hands over
+one resolved date — future = past — under WHATEVER TIMEX `dtx` it wrote) and a decoded clock time: the merge composes
+TIMEX = date TIMEX ++ time TIMEX and the datetime of that date at that time, for every valid date (`merge_clock`, any
+`dtx`), and the resolution emits exactly that one value. -/
+theorem date_at_time_relative (u : Uni) (c : Clock) (w60 : c.m < 60 ∧ c.s < 60) (hh : Nat) (h24 : hh < 24) (dtx : Str)
+    (y mo d : Nat) (hv : (⟨y, mo, d⟩ : Date).valid = true) (hy : 1000 ≤ y ∧ y < 10000) (tv : DT)
+    (htv : tv.hh = hh ∧ tv.mi = c.m ∧ tv.ss = c.s) :
+    mergeDateAndTime (toSlot .date (Res.mk true dtx [] ⟨y, mo, d, 0, 0, 0⟩ ⟨y, mo, d, 0, 0, 0⟩))
+        (toSlot .time (Res.mk true (c.timex hh) [] tv tv)) false false =
+      .ok (Res.mk true (dtx ++ c.timex hh) [] ⟨y, mo, d, hh, c.m, c.s⟩ ⟨y, mo, d, hh, c.m, c.s⟩) ∧
+    dateTimeResolution u (toSlot .datetime (Res.mk true (dtx ++ c.timex hh) [] ⟨y, mo, d, hh, c.m, c.s⟩ ⟨y, mo, d, hh, c.m, c.s⟩)) =
+      .ok (some [{ timex := dtx ++ c.timex hh, type := sDateTime, value := some (ymd y mo d ++ 32 :: hms hh c.m c.s) }]) := by
+  refine ⟨?_, dtRes_datetime_plain u _ y mo d hh c.m c.s hy.1 hy.2⟩
+  have := merge_clock c w60 hh h24 dtx [] y mo d hv tv htv
+  simpa using this
+
+/-- C07(d) for a YEAR-LESS date ("May 5 at 3pm": the date parser hands over TWO candidates, future and past, one year
+apart, TIMEX `XXXX-05-05`): both candidates get the same clock time, the TIMEX is date TIMEX ++ time TIMEX. -/
+theorem date_at_time_yearless (c : Clock) (w60 : c.m < 60 ∧ c.s < 60) (hh : Nat) (h24 : hh < 24) (dtx cm : Str)
+    (f p : Date) (hf : f.valid = true) (hp : p.valid = true) (tv : DT) (htv : tv.hh = hh ∧ tv.mi = c.m ∧ tv.ss = c.s) :
+    mergeDateAndTime (toSlot .date (Res.mk true dtx [] ⟨f.y, f.m, f.d, 0, 0, 0⟩ ⟨p.y, p.m, p.d, 0, 0, 0⟩))
+        (toSlot .time (Res.mk true (c.timex hh) cm tv tv)) false false =
+      .ok (Res.mk true (dtx ++ c.timex hh) (if hh ≤ 12 ∧ cm ≠ [] then sAmPm else []) ⟨f.y, f.m, f.d, hh, c.m, c.s⟩
+        ⟨p.y, p.m, p.d, hh, c.m, c.s⟩) := by
+  obtain ⟨e1, e2, e3⟩ := htv
+  have mkf := mkDateTime_ok ⟨f.y, f.m, f.d, 0, 0, 0⟩ (by simpa [DT.date] using hf) hh c.m c.s h24 w60.1 w60.2
+  have mkp := mkDateTime_ok ⟨p.y, p.m, p.d, 0, 0, 0⟩ (by simpa [DT.date] using hp) hh c.m c.s h24 w60.1 w60.2
+  simp only at mkf mkp
+  have e : 84 :: (fmtD 2 (hh : Int) ++ c.tail) = c.timex hh := rfl
+  simp [mergeDateAndTime, toSlot, e1, e2, e3, timex_not_ampm c w60 hh (by omega), timex_drop3 c hh (by omega), mkf, mkp, e]
 
 /-! ## Every culture's `TimeParserConfiguration`
 
